@@ -15,7 +15,8 @@ EXTENDS Integers, FiniteSets, Sequences, TLC
 CONSTANTS NTasks, MaxT, MD, MaxCalls, DueCheck, AtomicHandlers,
           Fault   \* "none", or a plausible regression whose counterexamples become adversarial scripts:
                   \* "cancelctx" (the start check trusts the task context, which is refreshed after a run, instead of the
-                  \* canceled flag), "overtimenodue" (the due re-check guards only the promote branch)
+                  \* canceled flag), "overtimenodue" (the due re-check guards only the promote branch),
+                  \* "lateexecuting" (the executing flag is set when the function is launched, not when the start is decided)
 Tasks == 1..NTasks
 None == 0
 
@@ -108,12 +109,12 @@ RWL(r, t) ==
                                             !.subKind[t] = IF r.canceled[t] THEN @ ELSE "none"]]
        ELSE IF (IF Fault = "cancelctx" THEN r.ctxc[t] ELSE r.canceled[t])
        THEN [go |-> FALSE, r |-> r1]
-       ELSE [go |-> TRUE, r |-> [r1 EXCEPT !.executing[t] = TRUE, !.startedCanceled = @ \/ r.canceled[t],
+       ELSE [go |-> TRUE, r |-> [r1 EXCEPT !.executing[t] = (Fault # "lateexecuting"), !.startedCanceled = @ \/ r.canceled[t],
                                            !.early = @ \/ (r.subKind[t] = "sched" /\ r.now < r.schedAt[t]),
                                            !.subKind[t] = "none", !.subAfter[t] = FALSE]]
 
 \* queueWg.Add(1); go executeWithLocking
-Launch(r, t) == [r EXCEPT !.overlap = @ \/ r.running[t], !.running[t] = TRUE, !.slot[t] = TRUE]
+Launch(r, t) == [r EXCEPT !.overlap = @ \/ r.running[t], !.running[t] = TRUE, !.slot[t] = TRUE, !.executing[t] = TRUE]
 
 \* ------------------------------------------------------------------ queue handler
 QWake == /\ s.qh = "idle" /\ s.signal
